@@ -101,7 +101,8 @@ def pathConstraint (A : Analysis D) (intcs : Option (List Nat)) (pred : FBlock) 
       let (t, f) := getAsserted A intcs a key (pred.ins.length + 1) q
       let (dflt, jump) : Option Nat × Option Nat :=
         match pred.next with
-        | [j] => (none, some j)
+        | [j] => if pred.exitNexts > 1 then (none, none)   -- branch to the next instruction: no constraint
+                 else (none, some j)
         | d :: j :: _ => (some d, some j)
         | [] => (none, none)
       -- the jump edge is written first, then the default edge
